@@ -593,6 +593,53 @@ var (
 	{"go-embed-directive-detached-by-a-blank-line", `//go:embed embed_data.txt
 
 var detached$N string`, `detached$N`},
+	{"init-statements-of-every-statement-kind", `func unwrapInit$N(v interface{}) interface{} {
+	if p, ok := v.(*int); ok {
+		return *p
+	}
+	return v
+}
+
+func TSInit$N(v interface{}) string {
+	switch v := unwrapInit$N(v); t := v.(type) {
+	case int:
+		return {FMT}Sprint("int ", t)
+	case string:
+		return "string " + t
+	default:
+		_ = v
+		return "other"
+	}
+}
+
+func OtherInits$N(n int) string {
+	out := ""
+	switch m := n * 2; {
+	case m > 4:
+		out += "big"
+	default:
+		out += "small"
+	}
+	switch m := n + 1; m {
+	case 3:
+		out += "three"
+	}
+	if m := n - 1; m == 1 {
+		out += "one"
+	} else if k := m * 3; k > 5 {
+		out += "k"
+	}
+	for i, j := 0, n; i < j; i, j = i+1, j-1 {
+		out += "."
+	}
+	c := make(chan int, 1)
+	c <- n
+	select {
+	case v, ok := <-c:
+		out += {FMT}Sprint(v, ok)
+	}
+	return out
+}`, `func() string { x := 7; return TSInit$N(&x) + TSInit$N("s") + TSInit$N(3.5) + OtherInits$N(2) + OtherInits$N(5) }()`},
 	{"go-embed-directive-detached-with-other-comment-groups-between", `//go:embed embed_data.txt
 
 // TODO(someone): a free-standing note between the directive and the variable.
